@@ -236,10 +236,10 @@ def run(tier, seed, replay):
                   "Proof. exact (plain_result_is_declassified declass table_%s (proj1 table_%s_ok)). Qed." % (fam, fam),
                   "Print Assumptions C01_current_tree_%s." % fam, ""]
     gen = os.path.join(vlib.COQ, "Gen_Rules_C01.v")
-    with open(gen, "w") as f:
-        f.write("\n".join(lines) + "\n")
     lock = vlib.coq_lock()
     try:
+        with open(gen, "w") as f:
+            f.write("\n".join(lines) + "\n")
         rc, cout = vlib.sh(["timeout", "900", "coqc", "-Q", ".", "RLBoxV", "Gen_Rules_C01.v"], cwd=vlib.COQ, timeout=1000)
     finally:
         lock.close()
